@@ -188,6 +188,16 @@ def inv_violation(coll, app):
             if isinstance(ax, str):
                 pos = i if i < st else raw.ndim - len(lay) + i
                 sizes.setdefault(ax, set()).add(raw.shape[pos])
+    # cached common shape = recomputation (max over the aligned broadcast parts and the default)
+    parts = [tuple(coll._default)]
+    for name in coll._arrays:
+        raw, lay = coll._arrays[name], list(coll._layouts[name])
+        st = lay.index(Ellipsis)
+        parts.append(tuple(raw.shape[st:raw.ndim - (len(lay) - st - 1)]))
+    nd_ = max(len(p) for p in parts)
+    al = [(p + (1,) * (nd_ - len(p))) if app else ((1,) * (nd_ - len(p)) + p) for p in parts]
+    if S != tuple(max(p[i] for p in al) for i in range(nd_)):
+        return "shape-cache-wrong"
     for ax, ss in sizes.items():
         if len(ss) > 1:
             return "named-axis-two-valued"
